@@ -117,6 +117,7 @@ func main() {
 	only := flag.String("only", "", "regexp restricting harness names")
 	dump := flag.String("dump", "", "directory for SMT dumps of sat/unknown queries")
 	slog := flag.String("solverlog", "", "prefix for solver transcript files")
+	onePath := flag.String("path", "", "comma separated decision prefix: run only this path (debugging)")
 	tier := flag.Int("tier", 0, "0 quick, 1 thorough (visible to harnesses through verif_tier)")
 	flag.Parse()
 	solverLogPath = *slog
@@ -207,6 +208,14 @@ func main() {
 	e := &Engine{prog: prog, fset: prog.Fset, models: map[string]*ssa.Function{}, execPrefix: execPrefixes}
 	e.cfg = Config{FeasTimeoutMS: orInt(spec.FeasMS, 2000), AssertTimeoutMS: orInt(spec.AssertMS, 60000), MaxSteps: orInt64(spec.MaxSteps, 30000000),
 		MaxPaths: spec.MaxPaths, Unroll: orInt(spec.Unroll, 64), Workers: *workers, Verbose: *verbose, DumpDir: *dump, PermuteMaps: spec.PermuteMaps, CrossCheck: spec.CrossCheck, Tier: *tier}
+	if *onePath != "" {
+		for _, x := range strings.Split(*onePath, ",") {
+			var v int
+			fmt.Sscanf(strings.TrimSpace(x), "%d", &v)
+			e.startPrefix = append(e.startPrefix, v)
+		}
+		e.noFork = true
+	}
 	e.cond = sync.NewCond(&e.mu)
 	e.pristine = map[*ssa.Package]map[*ssa.Global]*Value{}
 	e.funcsSeen = map[string]bool{}
